@@ -15,8 +15,8 @@ package customize
 // (records its argument).
 
 import (
-	"sync"
 	"strings"
+	"sync"
 	"time"
 
 	metav1 "k8s.io/apimachinery/pkg/apis/meta/v1"
@@ -26,7 +26,6 @@ import (
 
 	"metacontroller/pkg/apis/metacontroller/v1alpha1"
 	"metacontroller/pkg/cache"
-	"metacontroller/pkg/controller/common"
 	"metacontroller/pkg/controller/common/api"
 	v1 "metacontroller/pkg/controller/common/customize/api/v1"
 	dynamicdiscovery "metacontroller/pkg/dynamic/discovery"
@@ -87,20 +86,8 @@ func verifC15NewFixture(parentRes []*dynamicdiscovery.APIResource, relRes *dynam
 	f := &verifC15Fixture{w: env.NewWorld(), relRes: relRes, parentListers: map[string]*env.Lister{}}
 	f.hook = &verifC15Hook{rules: rules}
 	f.relLister = env.NewLister()
-	cc := &v1alpha1.CompositeController{}
-	cc.Name = "cc"
-	cc.Spec.Hooks = &v1alpha1.CompositeControllerHooks{Customize: &v1alpha1.Hook{}}
-	f.mgr = &Manager{
-		name:             "cc",
-		controller:       cc,
-		parentKinds:      common.GroupKindMap{},
-		dynClient:        f.w.Dyn,
-		parentInformers:  common.InformerMap{},
-		relatedInformers: common.InformerMap{verifC15GVR(relRes): dynamicinformer.VerifNewResourceInformer(f.relLister)},
-		customizeCache:   newResponseCache(),
-		enqueueParent:    func(o interface{}) { f.enq = append(f.enq, o) },
-		customizeHook:    f.hook,
-	}
+	f.mgr, _ = VerifNewManager(f.w.Dyn, dynamicinformer.NewSharedInformerFactory(f.w.Dyn, 0), func(o interface{}) { f.enq = append(f.enq, o) }, f.hook)
+	f.mgr.relatedInformers.Set(verifC15GVR(relRes), dynamicinformer.VerifNewResourceInformer(f.relLister))
 	for _, r := range parentRes {
 		l := env.NewLister()
 		f.parentListers[r.Name] = l
@@ -569,17 +556,21 @@ func VerifC15_Events() {
 		env.MarkDeleting(parents[0].obj)
 		parents[0].obj.SetFinalizers([]string{"metacontroller.k8s.io/compositecontroller-cc"})
 	}
-	if rt.Tier() > 0 {
-		// a second parent of the same kind, or (as with a decorator watching
-		// several resources) of the kind with the other scope
-		second := rt.Choice("second-parent", 3)
+	{
+		// a second parent of the same kind (quick tier: only that), or (as with a
+		// decorator watching several resources) of the kind with the other scope:
+		// an object that several parents select wakes every one of them
+		second := rt.Choice("second-parent", 2+rt.Tier())
 		if second > 0 {
+			rt.Cover("second-parent")
 			qNamespaced := parentNamespaced
 			if second == 2 {
 				qNamespaced = !parentNamespaced
 			}
 			var qns string
-			if qNamespaced {
+			if qNamespaced && rt.Tier() == 0 {
+				qns = pns // quick tier: a sibling in the same namespace
+			} else if qNamespaced {
 				qns = rt.String("second-parent-namespace")
 				rt.Assume(qns != "")
 			}
